@@ -109,6 +109,9 @@ Inductive md :=
 | MAddAttested (c : N) | MDelAttested (c : N)
 | MSetO2Cred (c : N) | MDropO2Cred
 | MAddUat (sid cred : N) (st : sstate) (issued : N)     (* Present(user_auth_token_session, ..) *)
+| MLogin (sid cred : N) (st : sstate) (issued : N)
+    (* a REAL password login (auth state machine) whose AuthSessionRecord (session id, cred_id, expiry,
+       issue time as recorded by the server) is written by process_authsessionrecord: the same Present *)
 | MRevokeUat (sid : N)                                  (* Removed(user_auth_token_session, Refer sid) *)
 | MPurgeUats                                            (* Purged(user_auth_token_session) *)
 | MAddO2 (oid : N) (parent : option N) (st : sstate) (issued rs : N)
@@ -143,6 +146,8 @@ Definition apply_md (k : N) (a : acct) (m : md) : acct :=
   | MDropO2Cred => mkacct (a_primary a) (a_passkeys a) (a_attested a) None (a_uats a) (a_o2s a) (a_apis a)
   | MAddUat sid c st iss =>
       (* ValueSetSession::insert_checked: only a vacant key is written *)
+      upd_uats a (insert_with (fun old _ => old) sid (mkuat c st iss) (a_uats a))
+  | MLogin sid c st iss =>
       upd_uats a (insert_with (fun old _ => old) sid (mkuat c st iss) (a_uats a))
   | MRevokeUat sid => upd_uats a (map_vals (fun i u => if i =? sid then urevoke k u else u) (a_uats a))
   | MPurgeUats => upd_uats a (map_vals (fun _ u => urevoke k u) (a_uats a))
@@ -269,12 +274,20 @@ Definition acct_eqb (a b : acct) : bool :=
 Definition chk_agree (a : acct) (c : chk) : bool :=
   Bool.eqb (check a (c_oid c) (c_parent c) (c_iat c) (c_ct c)) (c_res c).
 
+(* what the model predicts for the credential a password login binds its session to: the
+   account's primary credential at the time of the login (login transactions carry one change) *)
+Definition login_agree (a : acct) (m : md) : bool :=
+  match m with
+  | MLogin _ c _ _ => opt_eqb (a_primary a) (Some c)
+  | _ => true
+  end.
+
 Fixpoint hist_agree (k : N) (a : acct) (steps : list step_obs) : bool :=
   match steps with
   | [] => true
   | s :: r =>
       let a' := step k (s_ct s) (s_mods s) a in
-      s_ok s && acct_eqb a' (s_dump s) && forallb (chk_agree a') (s_checks s)
+      s_ok s && forallb (login_agree a) (s_mods s) && acct_eqb a' (s_dump s) && forallb (chk_agree a') (s_checks s)
       && hist_agree (k + 1) a' r
   end.
 
@@ -334,12 +347,19 @@ Definition p_chk (cur : acct) (c : chk) : bool :=
        end
   else true.
 
+(* (e) a real login binds its session to a credential that is on the account *)
+Definition p_login (prev : acct) (m : md) : bool :=
+  match m with
+  | MLogin _ c _ _ => memN c (cred_ids prev)
+  | _ => true
+  end.
+
 Fixpoint hist_pcheck (k : N) (prev : acct) (steps : list step_obs) : bool :=
   match steps with
   | [] => true
   | s :: r =>
       let cur := s_dump s in
-      p_same_change k prev cur && p_inv cur && p_orphans (s_ct s) cur
+      forallb (p_login prev) (s_mods s) && p_same_change k prev cur && p_inv cur && p_orphans (s_ct s) cur
       && forallb (p_chk cur) (s_checks s)
       && hist_pcheck (k + 1) cur r
   end.
